@@ -95,6 +95,13 @@ def eval_pair(case):
         K = implementer(I)(type('K', (), {'m': mkfunc(sig_src(0, 0, 1, mkw))}))
         cand = K()
         impl, bound, v = cand.m, False, verifyObject
+    elif kind == 'class-noself':
+        # verifyClass of a class whose method takes its instance through *args
+        if mr or mo or not mva:
+            return None, None
+        K = implementer(I)(type('K', (), {'m': mkfunc(sig_src(0, 0, 1, mkw))}))
+        cand = K
+        impl, bound, v = K.m, True, verifyClass
     elif kind == 'class':
         K = implementer(I)(type('K', (), {'m': mkfunc(sig_src(mr, mo, mva, mkw, self=True))}))
         cand = K
@@ -305,7 +312,7 @@ def run(ctx):
     big = 2 * mx + 5          # more surplus positionals than any implementation in the grid absorbs
     cases = [('pair', (a, b, k, big)) for a in GRID for b in GRID
              for k in ('func-attr', 'method', 'class', 'staticmethod-on-provider', 'method-noself',
-                       'staticmethod-class', 'staticmethod-inherited-class',
+                       'staticmethod-class', 'staticmethod-inherited-class', 'class-noself',
                        'method/description-of-a-Method-subclass',
                        'method/description-named-differently')]
     for r in range(0, len(DEFECTS) + 1):
@@ -331,5 +338,5 @@ def run(ctx):
     ctx.sample(dict(reuse=cases[-5][1], fields='(interface signature, implementation signature (+self), the two roles in which the same function object is verified, in order)'))
     return finish(
         ctx, 'model_checking',
-        'all pairs of interface-method and implementation signatures in the grid x 9 candidate kinds (functions stored on instances, methods, classes under verifyClass, own and inherited staticmethods, instances taken through *args, descriptions that are instances of a Method subclass or carry another name than their key), decided by binding every call shape the interface admits with inspect.signature; all 2^8 subsets of defects x tentative x verifyObject/verifyClass compared with the exact expected list of failures',
+        'all pairs of interface-method and implementation signatures in the grid x 10 candidate kinds (functions stored on instances, methods, classes under verifyClass, own and inherited staticmethods, instances taken through *args, descriptions that are instances of a Method subclass or carry another name than their key), decided by binding every call shape the interface admits with inspect.signature; all 2^8 subsets of defects x tentative x verifyObject/verifyClass compared with the exact expected list of failures',
         'complete Cartesian products; states = cases')
